@@ -135,10 +135,17 @@ class XT(object):
         return e
 
 
+class TList(list):
+    """A multi-valued header entry the caller hands over as a TUPLE (a plain list = a Python list).
+    The model's VList stands for both; only the object built for suds differs."""
+
+
 def value_expr(v):
     """Python source rebuilding an abstract value (family conventions)."""
     if v is None:
         return "None"
+    if isinstance(v, TList):
+        return "TList([%s])" % ", ".join(value_expr(x) for x in v)
     if isinstance(v, tuple) and v[0] == "elem":
         return "('elem', %d)" % v[1]
     if isinstance(v, tuple) and v[0] == "leaf":
@@ -431,7 +438,7 @@ def gen_headers(rng, S, parts, force=None, out_parts=()):
         l = [gen_part_value(rng, S, parts[j]) for _ in range(rng.choice(sizes))]
         if rng.random() < 0.3:
             l.insert(rng.randrange(len(l) + 1), None)
-        return l
+        return TList(l) if rng.random() < 0.5 else l       # the container type: tuple | list
 
     r = rng.random()
     if force is None and r < 0.06:
@@ -562,6 +569,8 @@ def build_headers(client, S, H):
 
     def val(v):
         o = F.to_python(client, S, v)
+        if isinstance(v, TList):
+            o = tuple(o)
         vals.append(o)
         return o
     if H.kind == "unset":
@@ -835,6 +844,11 @@ class Runner(object):
             ck.seen((tag, cname, H.expr(), W is not None, tuple(calls)),
                     nontrivial=(H.kind != "unset" or W is not None))
             ck.count("shape-" + H.kind)
+            entries = [v for _, v in H.items] if H.kind == "dict" else [x[1] for x in H.items if x[0] == "val"]
+            if any(isinstance(v, TList) for v in entries):
+                ck.count("multi-valued-entry-as-tuple")
+            if any(isinstance(v, list) and not isinstance(v, TList) for v in entries):
+                ck.count("multi-valued-entry-as-list")
             ck.count("calls", len(results))
             ck.count("parts-%d" % len(parts))
             if W is not None:
@@ -907,6 +921,12 @@ def fixed_configs():
         # list-valued entries with an item that is None (left out by the marshaller for the type= part)
         ("op0", Headers("seq", [("val", leaf("a")), ("val", [obj, obj]), ("val", [None, ("leaf", 3, "3")])], [], "list"), None),
         ("op0", Headers("dict", [("H1", [leaf("a"), leaf("b")]), ("hp3", [None]), ("H2", [])], []), None),
+        # ... and the same multi-valued entries handed over as TUPLES (empty, one item, several)
+        ("op0", Headers("seq", [("val", TList([leaf("a")])), ("val", TList([obj, obj])),
+                                ("val", TList([None, ("leaf", 3, "3"), ("leaf", 4, "4")]))], [], "list"), None),
+        ("op0", Headers("dict", [("H1", TList([leaf("a"), leaf("b")])), ("hp3", TList([("leaf", 1, "1"), ("leaf", 2, "2")])),
+                                 ("H2", TList([]))], []), None),
+        ("op1", Headers("seq", [("val", TList([leaf("a"), leaf("b"), leaf("c")])), ("elem", 0)], [x], "tuple"), sec),
         ("op0", Headers("seq", [("val", None), ("val", None), ("val", None), ("val", leaf("s")), ("elem", 0),
                                 ("val", None), ("elem", 0)], [x], "tuple"), sec),
         # the reply's header parts (op3: R1 and H1 again; op1: H2) are not the request's: a client-wide dict
@@ -986,6 +1006,7 @@ def probe_element_items(ck, client, wsdl):
     hp3 = lambda t: U.expat_parse(('<hp3>%s</hp3>' % t).encode("utf-8")).canon()   # noqa
     shapes = [
         ("dict-value-list", lambda e: {"H1": [e, "a", e]}, lambda x: [x, h1("a"), x]),
+        ("dict-value-tuple", lambda e: {"H1": (e, "a", e), "hp3": (3, 4)}, lambda x: [x, h1("a"), x, hp3("3"), hp3("4")]),
         ("positional-list", lambda e: [[e, "a"], e, {"e1": "v"}, [3, e]],
          lambda x: [x, h1("a"), x, U.expat_parse(b'<H2 xmlns="urn:c17:b"><e1 xmlns="urn:c17:a">v</e1></H2>').canon(),
                     hp3("3"), x]),
@@ -1053,7 +1074,7 @@ def run(ck):
         "Coq as rendered in the WSDL; the specification works from the input side only); a ready-made Element as "
         "the VALUE of a declared part in the dict form (marshaller -> ElementAppender -> ElementWrapper: sent as it "
         "is, the caller's object untouched)",
-        "outside the Coq model, compared in Python: ready-made Elements as ITEMS of a list-valued entry (3 shapes "
+        "outside the Coq model, compared in Python: ready-made Elements as ITEMS of a list-valued entry (4 shapes "
         "x 3 calls: sent as they are in their position, same on every call, caller's object unchanged)",
         "covered by correspondence only: wsdl.Binding.header/__resolveheaders (every generated soap:header must "
         "resolve to the declared part, in order), prefix handling (setPrefix/promotePrefixes: infoset compared), "
@@ -1271,11 +1292,12 @@ def run(ck):
             disagree.add(i)
 
     ck.rule = ("one hand-written interface (3 header parts: simple global element, nillable complex global element "
-               "in another namespace, type= part) with 19 fixed configurations (3 calls each) incl. the input classes of the four repaired defects, "
+               "in another namespace, type= part) with 22 fixed configurations (3 calls each) incl. the input classes of the four repaired defects, "
                "and 3 prefix-rebinding probes; "
                "generated abstract schemas (1-3 namespaces) x two operations with 0..3 declared header parts x "
                "soapheaders shapes {unset, single value/Element/None, tuple/list positional with 0..k+2 values, "
-               "None and list-valued entries (items: values, None), surplus values, ready-made Elements as part values "
+               "None and multi-valued entries (container: list or tuple; empty, one or more items; items: values, None), "
+               "surplus values, ready-made Elements as part values "
                "in the dict form (also one object for two parts; >= 2 calls), reply-side soap:header declarations "
                "(input parts again and/or parts of their own message) with matching dict keys / surplus values, "
                "ready-made Elements (also the same object twice) interleaved, dict by "
@@ -1316,7 +1338,7 @@ def replay(ck, payload):
             print("now sent      :", [k.canon() for k in U.expat_parse(raw).find("Header", F.SOAPENV).elements()])
         return 0
     VObj = F.VObj      # noqa  (names used by the expressions)
-    env = {"Headers": Headers, "XT": XT, "VObj": VObj, "Tok": Tok, "datetime": datetime,
+    env = {"Headers": Headers, "XT": XT, "VObj": VObj, "Tok": Tok, "TList": TList, "datetime": datetime,
            "Decimal": decimal.Decimal, "decimal": decimal}
     H = eval(payload["soapheaders"], env)
     W = None
